@@ -20,4 +20,5 @@ Separate Extraction
   Wire.wf_pcm Wire.wf_pcm_z Wire.wf_repl Wire.wf_task Wire.wf_task_str Wire.wf_sr Wire.is_compact
   Wire.at_group_boundary Wire.at_config_value_cut Wire.at_record_boundary
   Wire.delete_nth Wire.in_language Wire.repl_in_language Wire.flags_token_unrecognized Wire.config_error_tolerated
-  Wire.in_language_regrouped Wire.repl_flags_token_unrecognized.
+  Wire.in_language_regrouped Wire.repl_flags_token_unrecognized
+  Wire.coord_repl Wire.coord_pcm.
